@@ -186,7 +186,11 @@ pub fn gen_ops(seed: u64, w: &World, mix: &OpMix) -> Vec<Op> {
                 if r.chance(50) {
                     Op::Serialize(slot)
                 } else {
-                    Op::Deserialize(if r.chance(15) { 3 } else { slot })
+                    Op::Deserialize(match r.below(20) {
+                        0..=2 => 3,
+                        3..=5 => 4,
+                        _ => slot,
+                    })
                 }
             }
             4 => Op::Restart,
@@ -933,7 +937,9 @@ impl<'a> Exec<'a> {
             version: 1,
         };
         // slot 3: another world's bytes (different rule list, other optimise setting)
-        let mut slots: Vec<Option<Slot>> = vec![None, None, None, None];
+        let mut slots: Vec<Option<Slot>> = vec![None, None, None, None, None];
+        // one I/O buffer reused for every load, as an embedder reading DAT files into a fixed buffer would
+        let mut iobuf: Vec<u8> = Vec::with_capacity(1 << 17);
         if !self.blocker {
             let alt: Vec<Rule> = w.rules.iter().rev().step_by(2).cloned().chain(w.extra.iter().cloned()).collect();
             let (opt, dbg) = (!w.knobs.optimize, w.knobs.debug);
@@ -941,6 +947,33 @@ impl<'a> Exec<'a> {
             if let Sut::Engine(e) = &s {
                 if let Ok(b) = e.serialize_raw() {
                     slots[3] = Some(Slot { bytes: b, rules: alt, optimize: opt, debug: dbg });
+                }
+            }
+        }
+        // slot 4: a near twin of this world's own list (one pattern word replaced by another of the same
+        // length), so its image has the same length as the engine's own image but other content
+        if !self.blocker {
+            let mut twin = w.rules.clone();
+            let swaps = [("ads", "img"), ("img", "ads"), ("ad", "js"), ("js", "ad"), ("v1", "v2"), ("v2", "v1"), ("api", "ads"), ("track", "pixel"), ("pixel", "track")];
+            'find: for r in twin.iter_mut() {
+                if let RuleSpec::Net(n) = &mut r.spec {
+                    if n.tag.is_none() && !n.opts.iter().any(|o| o == "badfilter") {
+                        for (a, b) in swaps.iter() {
+                            let needle = format!("/{}", a);
+                            if n.pat.contains(&needle) {
+                                n.pat = n.pat.replacen(&needle, &format!("/{}", b), 1);
+                                break 'find;
+                            }
+                        }
+                    }
+                }
+            }
+            if twin != w.rules {
+                let s = Sut::build(&twin, &[], w.knobs.optimize, w.knobs.debug, 0, false, None);
+                if let Sut::Engine(e) = &s {
+                    if let Ok(b) = e.serialize_raw() {
+                        slots[4] = Some(Slot { bytes: b, rules: twin, optimize: w.knobs.optimize, debug: w.knobs.debug });
+                    }
                 }
             }
         }
@@ -1065,11 +1098,14 @@ impl<'a> Exec<'a> {
                     }
                     Op::Deserialize(slot) => {
                         if let (Sut::Engine(e), Some(s)) = (&mut sut, slots[*slot].clone()) {
-                            let r = maybe_other_thread(on_helper, || e.deserialize(&s.bytes));
+                            iobuf.clear();
+                            iobuf.extend_from_slice(&s.bytes);
+                            let io = &iobuf[..];
+                            let r = maybe_other_thread(on_helper, || e.deserialize(io));
                             match r {
                                 Ok(()) => {
                                     stats.reloads += 1;
-                                    if *slot == 3 {
+                                    if *slot == 3 || *slot == 4 {
                                         stats.reload_foreign += 1;
                                     }
                                     if !model.tags.is_empty() {
